@@ -93,5 +93,55 @@ theorem staging_suffix_plain : ∀ c ∈ ['.', 'c', 'o', 'p', 'i', 'a', '-', 't'
 /-- sanity: a hostile name -/
 example : Copia.Quote.escape "a'; rm -rf $HOME #\\".toList = "a\\'; rm -rf $HOME #\\\\".toList := by decide
 
+
+/-- a run in which any subset of the planned transfers fails (reported, non-zero exit) and any subset
+of the deletes fails (`let _ = remove_file(..)`); the deletes still run after failed transfers, as in
+`run_local` / `run_remote` -/
+def oneWayPartial (le : K → K → Bool) (excl : K → Bool) (wd : Bool) (S D : Tree K C)
+    (tfails dfails : K → Bool) : Tree K C :=
+  let plan := buildPlan le excl (metaOf S) (metaOf D) wd
+  (plan.delete.filter (fun p => !dfails p)).foldl tdel ((plan.transfer.filter (fun p => !tfails p)).foldl (deliver S) D)
+
+/-- C04 (non-zero exit): whichever transfers and deletes fail, nothing outside the plan is touched;
+a planned transfer's path holds what it held or the complete delivered entry, a planned delete's
+path what it held or nothing. With no failure this is the run itself. -/
+theorem partial_failure_stays_in_plan (le : K → K → Bool) (excl : K → Bool) (wd : Bool) (S D : Tree K C)
+    (tfails dfails : K → Bool) (q : K) :
+    let plan := buildPlan le excl (metaOf S) (metaOf D) wd
+    let r := oneWayPartial le excl wd S D tfails dfails
+    (q ∉ plan.transfer → q ∉ plan.delete → lookup r q = lookup D q) ∧
+    (q ∈ plan.transfer → q ∉ plan.delete → lookup r q = lookup D q ∨ lookup r q = (lookup S q).map strip) ∧
+    (q ∈ plan.delete → q ∉ plan.transfer → lookup r q = lookup D q ∨ lookup r q = none) := by
+  intro plan r
+  have hsrc : ∀ p ∈ plan.transfer.filter (fun p => !tfails p), (lookup S p).isSome := by
+    intro p hp
+    exact transfer_in_src le excl S D wd p ((List.mem_filter.mp hp).1)
+  have hr : lookup r q =
+      if q ∈ plan.delete.filter (fun p => !dfails p) then none
+      else if q ∈ plan.transfer.filter (fun p => !tfails p) then (lookup S q).map strip else lookup D q := by
+    show lookup (oneWayPartial le excl wd S D tfails dfails) q = _
+    unfold oneWayPartial
+    simp only []
+    rw [lookup_tdels, lookup_delivers S _ hsrc]
+  refine ⟨?_, ?_, ?_⟩
+  · intro h1 h2
+    rw [hr]
+    have a : q ∉ plan.delete.filter (fun p => !dfails p) := fun h => h2 (List.mem_filter.mp h).1
+    have b : q ∉ plan.transfer.filter (fun p => !tfails p) := fun h => h1 (List.mem_filter.mp h).1
+    simp [a, b]
+  · intro _ h2
+    rw [hr]
+    have a : q ∉ plan.delete.filter (fun p => !dfails p) := fun h => h2 (List.mem_filter.mp h).1
+    simp only [a, if_false]
+    split
+    · right; rfl
+    · left; rfl
+  · intro _ h1
+    rw [hr]
+    have b : q ∉ plan.transfer.filter (fun p => !tfails p) := fun h => h1 (List.mem_filter.mp h).1
+    split
+    · right; rfl
+    · left; simp [b]
+
 end Copia.C04
 
